@@ -39,6 +39,8 @@ ASSUMPTIONS = [
     "job being up front or scheduled from a handler, before the first event / between events / in the final drain (there "
     "only 'at most once' is demanded of the new job, 'exactly once' of the scheduling one); one time (2) earlier than "
     "everything else",
+    "events that come into being through a job: job 0 (before the last event) pushes an event stamped its own time / its "
+    "own time + 0.3 to a second subscribed source; the order clauses between jobs and events apply to that event too",
     "a job with the same time as an event may run before or after that timestamp's events; the clock a job sees is only "
     "bounded from below (the statement says 'at or after its scheduled time')",
 ]
@@ -87,6 +89,17 @@ def scenarios(tier, seed):
             for maxc in (1, 2):
                 for raising in (None, 0):
                     out.append(((t0, EARLY), maxc, mode, raising, 1))
+    # jobs that PUSH EVENTS: job 0 pushes an event stamped (its own time + delta) to a second, otherwise empty, subscribed
+    # source; the other jobs fall before / into / after the same gap between two primary events. (Job 0 before the last
+    # event: what a job of the final drain creates is outside the property.)
+    first = tuple(t for t in TIMES + SUBSEC if t < EVENTS[-1])
+    for jt in itertools.product(first, TIMES + SUBSEC):
+        for maxc in (1, 2):
+            for delta in ("push0", "push0.3"):
+                out.append((jt, maxc, ("up", "up"), None, delta))
+    small = (5, 10, 25.2, 25.8, 30)
+    for jt in itertools.product(tuple(t for t in small if t < EVENTS[-1]), small, small):
+        out.append((jt, 2, ("up",) * 3, None, "push0.3"))
     # drain family: many jobs beyond the last event, every insertion order, default schedule only
     # (one work item = all insertion orders that begin with one given job: see drain_members)
     for n in BOUNDS[tier]["drain_jobs"]:
@@ -152,6 +165,10 @@ def make_run(sc, states=None):
             async def j():
                 trace.append(("job", i, jt[i], now()))
                 runs[i] = runs.get(i, 0) + 1
+                if i == 0 and dsrc is not None and runs[i] == 1:
+                    pt = round(now() + push_delta, 6)
+                    trace.append(("push", pt))
+                    dsrc.push(bs.Event(T(pt)))
                 if runs[i] >= RUN_CAP:
                     # the same job again and again: cut the execution here (the oracle reports the repeated runs)
                     trace.append(("run-cap", i))
@@ -170,6 +187,18 @@ def make_run(sc, states=None):
             return j
 
         d.subscribe(src, h)
+        dsrc = None
+        push_delta = 0.0
+        if isinstance(nsrc, str) and nsrc.startswith("push"):
+            push_delta = float(nsrc[4:])
+            dsrc = bs.FifoQueueEventSource()
+
+            async def hd(e):
+                trace.append(("ev", secs(e.when), now(), "d"))
+                note()
+                await gates.suspend("hd")
+                trace.append(("ev-end", secs(e.when), "d"))
+            d.subscribe(dsrc, hd)
         if nsrc == 2:
             async def hb(e):
                 trace.append(("ev", secs(e.when), now(), "b"))
@@ -269,7 +298,7 @@ def oracle(sc, trace, out, errs):
                 bad.append(("job-overlaps-earlier-event", f"job@{x[2]} started while event@{t} was still being handled"))
     # events themselves: each exactly once, in order
     evs = [x[1] for x in trace if x[0] == "ev"]
-    if evs != sorted(EVENTS + (EVENTS_B if nsrc == 2 else ())):
+    if evs != sorted(EVENTS + (EVENTS_B if nsrc == 2 else ()) + tuple(x[1] for x in trace if x[0] == "push")):
         bad.append(("events", f"events handled {evs}"))
     return bad
 
